@@ -163,11 +163,15 @@ type CanonOpt struct {
 
 func numText(n float64, six bool) string {
 	if six {
+		// what the printed form shows: integral values (within int64) exactly,
+		// others with six significant digits; compare the value a reader of
+		// that text gets
+		var s string
 		if n == float64(int64(n)) {
-			return strconv.FormatInt(int64(n), 10)
+			s = strconv.FormatInt(int64(n), 10)
+		} else {
+			s = fmt.Sprintf("%.6g", n)
 		}
-		// the printed form has six significant digits; compare what re-reading it gives
-		s := fmt.Sprintf("%.6g", n)
 		f, err := strconv.ParseFloat(s, 64)
 		if err != nil {
 			return s
